@@ -143,6 +143,12 @@ fn big_foreign(_ctx: &Ctx, ev: &mut Value) -> Option<Violation> {
     match crate::props::scenarios::huge_foreign_file() {
         Ok(n) => {
             ev["coverage"]["huge_foreign_file_steps"] = serde_json::json!(n);
+        }
+        Err(v) => return Some(v),
+    }
+    match crate::props::scenarios::file_beyond_4gib() {
+        Ok(n) => {
+            ev["coverage"]["file_beyond_4gib_reads"] = serde_json::json!(n);
             None
         }
         Err(v) => Some(v),
@@ -153,7 +159,7 @@ pub fn def() -> PropDef {
     PropDef {
         id: "C04",
         level: "exploration",
-        rule: "model tree (<=40 entries, depth <=5, Unicode names incl. 2-unit characters and 31-unit names, streams 0-12 KiB around 64/4096/sector boundaries, arbitrary CLSID/state/time values on storages and the root) x layout plan from the independent synthesizer (harness/src/synth.rs: permuted sector placement incl. FAT/DIFAT/directory/MiniFAT/mini-stream sectors anywhere, fragmented chains, permuted mini sectors with free ones, permuted directory slots with unallocated gaps and trailing free entries, balanced red-black sibling trees or degenerate lists, surplus FAT sectors giving DIFAT sectors, garbage in slack and free sectors, header variation), every image first accepted by the independent checker. Oracle: open and open_strict succeed and the full dump equals the encoded model; then <=15 ops (C01 oracle) with reopen at every clean boundary (C02 oracle) and the checker after every op (C03 oracle). Non-trivial = layout has a fragmented chain, a storage with >=3 children in a non-perfect balanced tree (contains red nodes) and an unallocated directory slot before the last used one; distinct = distinct case JSON.",
+        rule: "model tree (<=40 entries, depth <=5, Unicode names incl. 2-unit characters and 31-unit names, streams 0-12 KiB around 64/4096/sector boundaries, arbitrary CLSID/state/time values on storages and the root) x layout plan from the independent synthesizer (harness/src/synth.rs: permuted sector placement incl. FAT/DIFAT/directory/MiniFAT/mini-stream sectors anywhere, fragmented chains, permuted mini sectors with free ones, permuted directory slots with unallocated gaps and trailing free entries, balanced red-black sibling trees or degenerate lists, surplus FAT sectors giving DIFAT sectors, garbage in slack and free sectors, header variation), every image first accepted by the independent checker. Oracle: open and open_strict succeed and the full dump equals the encoded model; then <=15 ops (C01 oracle) with reopen at every clean boundary (C02 oracle) and the checker after every op (C03 oracle). Non-trivial = layout has a fragmented chain, a storage with >=3 children in a non-perfect balanced tree (contains red nodes) and an unallocated directory slot before the last used one; distinct = distinct case JSON. Scenario steps: the 15.6 MB foreign file with two DIFAT sectors, and a valid version-4 file of 4 GiB + 10 MiB (sparse read-only backend: explicit header/directory/DIFAT/FAT, stream data by formula) read in both modes around file offset 2^32, stream offset 2^32, 2^31 and at the end.",
         assumptions: &["the synthesizer's idea of 'spec-valid' is MS-CFB as read by the harness author; each image is cross-checked by refparse.rs (also harness code)", "surplus FAT sectors that map only non-existent sectors are treated as legal"],
         quick_cases: 2000,
         thorough_cases: 25000,
